@@ -22,7 +22,11 @@ import (
 	"github.com/btcsuite/btcd/btcec"
 	bn256 "github.com/ethereum/go-ethereum/crypto/bn256/cloudflare"
 
+	"google.golang.org/protobuf/proto"
+
 	"keepverif/harness/hx"
+
+	"github.com/keep-network/keep-core/pkg/beacon/gjkr/gen/pb"
 
 	"github.com/keep-network/keep-core/pkg/beacon/gjkr"
 	"github.com/keep-network/keep-core/pkg/chain"
@@ -54,7 +58,7 @@ type Case struct {
 	Corrupt   map[int]bool
 }
 
-var modNames = []string{"accw", "acc", "revw", "rev", "drop", "garb", "bad", "sess", "noS", "noC", "rs", "rm", "as", "cm", "cp", "pm", "pp", "pt", "h"}
+var modNames = []string{"accw", "acc", "revw", "rev", "drop", "garb", "bad", "sess", "noS", "noC", "rs", "rm", "as", "cm", "cp", "pm", "pp", "pt", "px", "ox", "h"}
 
 func parseMod(s string) (Mod, bool) {
 	for _, nm := range modNames {
@@ -574,6 +578,25 @@ func senderAndSession(c *Case, self group.MemberIndex, session string, v Variant
 	return s, ss
 }
 
+// oxArg: the `ox<j>` modifier (a raw wire map key j+256 is added to a key map)
+func oxArg(v Variant) (int, bool) {
+	for _, md := range v.Mods {
+		if md.Name == "ox" {
+			return arg0(md), true
+		}
+	}
+	return 0, false
+}
+
+// rawMsg is an adversarial message given as raw wire bytes.
+type rawMsg struct {
+	typ  string
+	data []byte
+}
+
+func (r rawMsg) Marshal() ([]byte, error) { return r.data, nil }
+func (r rawMsg) Type() string             { return r.typ }
+
 func hasMod(v Variant, name string) bool {
 	for _, md := range v.Mods {
 		if md.Name == name {
@@ -697,7 +720,32 @@ func applyVariant(c *Case, m *member, ph int, out []net.TaggedMarshaler, v Varia
 			nk := copyKeys(keys)
 			keyMods(m, view, nk, v, tags, 4)
 			s, ss := senderAndSession(c, self, session, v, tags)
-			res = append(res, gjkr.VerifC01NewSecretSharesAccusationsMessage(s, nk, ss))
+			{
+				built := gjkr.VerifC01NewSecretSharesAccusationsMessage(s, nk, ss)
+				if j, ok := oxArg(v); ok {
+					raw, err := built.Marshal()
+					if err != nil {
+						panic(err)
+					}
+					var pm pb.SecretSharesAccusations
+					if err := proto.Unmarshal(raw, &pm); err != nil {
+						panic(err)
+					}
+					if pm.AccusedMembersKeys == nil {
+						pm.AccusedMembersKeys = map[uint32][]byte{}
+					}
+					// wire-level map key above the uint8 member index range
+					pm.AccusedMembersKeys[uint32(j)+256] = m.freshKey(2000 + j).PrivateKey.Marshal()
+					out2, err := proto.Marshal(&pm)
+					if err != nil {
+						panic(err)
+					}
+					tags["ox"] = true
+					res = append(res, rawMsg{typ: built.Type(), data: out2})
+				} else {
+					res = append(res, built)
+				}
+			}
 		case *gjkr.MemberPublicKeySharePointsMessage:
 			_, pts, session := msg.VerifC01Fields()
 			np := append([]*bn256.G2(nil), pts...)
@@ -711,6 +759,29 @@ func applyVariant(c *Case, m *member, ph int, out []net.TaggedMarshaler, v Varia
 				case "pp":
 					np = append(np, new(bn256.G2).ScalarBaseMult(big.NewInt(5)))
 					tags["p7cnt"] = true
+				case "px":
+					// points of the HIGHER-degree a' = a + c·Π_{s∈S}(x−s), S not truncated: more than
+					// t+1 points when |S| > t, valid for every member of S
+					delta := []*big.Int{Coef(c.Seed, m.idx, 50)}
+					for _, s := range md.Args {
+						delta = PolyMulLinear(delta, s)
+					}
+					cnt := c.T + 1
+					if len(delta) > cnt {
+						cnt = len(delta)
+					}
+					np = make([]*bn256.G2, cnt)
+					for k := 0; k < cnt; k++ {
+						e := new(big.Int)
+						if k <= c.T {
+							e.Set(Coef(c.Seed, m.idx, k))
+						}
+						if k < len(delta) {
+							e.Add(e, delta[k]).Mod(e, R)
+						}
+						np[k] = new(bn256.G2).ScalarBaseMult(e)
+					}
+					tags["p7px"] = true
 				case "pt":
 					// points of a' = a + c·Π_{s∈S}(x−s): valid exactly for the members in S
 					S := md.Args
@@ -739,13 +810,63 @@ func applyVariant(c *Case, m *member, ph int, out []net.TaggedMarshaler, v Varia
 			nk := copyKeys(keys)
 			keyMods(m, view, nk, v, tags, 8)
 			s, ss := senderAndSession(c, self, session, v, tags)
-			res = append(res, gjkr.VerifC01NewPointsAccusationsMessage(s, nk, ss))
+			{
+				built := gjkr.VerifC01NewPointsAccusationsMessage(s, nk, ss)
+				if j, ok := oxArg(v); ok {
+					raw, err := built.Marshal()
+					if err != nil {
+						panic(err)
+					}
+					var pm pb.PointsAccusations
+					if err := proto.Unmarshal(raw, &pm); err != nil {
+						panic(err)
+					}
+					if pm.AccusedMembersKeys == nil {
+						pm.AccusedMembersKeys = map[uint32][]byte{}
+					}
+					// wire-level map key above the uint8 member index range
+					pm.AccusedMembersKeys[uint32(j)+256] = m.freshKey(2000 + j).PrivateKey.Marshal()
+					out2, err := proto.Marshal(&pm)
+					if err != nil {
+						panic(err)
+					}
+					tags["ox"] = true
+					res = append(res, rawMsg{typ: built.Type(), data: out2})
+				} else {
+					res = append(res, built)
+				}
+			}
 		case *gjkr.MisbehavedEphemeralKeysMessage:
 			_, keys, session := msg.VerifC01Fields()
 			nk := copyKeys(keys)
 			keyMods(m, view, nk, v, tags, 10)
 			s, ss := senderAndSession(c, self, session, v, tags)
-			res = append(res, gjkr.VerifC01NewMisbehavedEphemeralKeysMessage(s, nk, ss))
+			{
+				built := gjkr.VerifC01NewMisbehavedEphemeralKeysMessage(s, nk, ss)
+				if j, ok := oxArg(v); ok {
+					raw, err := built.Marshal()
+					if err != nil {
+						panic(err)
+					}
+					var pm pb.MisbehavedEphemeralKeys
+					if err := proto.Unmarshal(raw, &pm); err != nil {
+						panic(err)
+					}
+					if pm.PrivateKeys == nil {
+						pm.PrivateKeys = map[uint32][]byte{}
+					}
+					// wire-level map key above the uint8 member index range
+					pm.PrivateKeys[uint32(j)+256] = m.freshKey(2000 + j).PrivateKey.Marshal()
+					out2, err := proto.Marshal(&pm)
+					if err != nil {
+						panic(err)
+					}
+					tags["ox"] = true
+					res = append(res, rawMsg{typ: built.Type(), data: out2})
+				} else {
+					res = append(res, built)
+				}
+			}
 		}
 	}
 	return res
